@@ -207,6 +207,34 @@ fn bases() -> Vec<(&'static str, Vec<u8>)> {
             u64::MAX,
         ),
     );
+    // only a LATER index point pushes track offset + index offset past 2^64 (INDEX 01 itself still fits)
+    let cue_non_late = (
+        5u8,
+        cue_body(
+            &[b'1'; 10],
+            0,
+            false,
+            &[
+                CueTrack { offset: 0, number: 1, isrc: [0; 12], flags: 0, idx: vec![(0, 1)] },
+                CueTrack { offset: u64::MAX - 5, number: 2, isrc: [0; 12], flags: 0, idx: vec![(0, 1), (3, 2), (10, 3)] },
+            ],
+            u64::MAX,
+        ),
+    );
+    let top = (u64::MAX / S) * S;
+    let cue_cdda_late = (
+        5u8,
+        cue_body(
+            b"1234567890123",
+            88200,
+            true,
+            &[
+                CueTrack { offset: 0, number: 1, isrc: ISRC, flags: 0, idx: vec![(0, 1)] },
+                CueTrack { offset: top - S, number: 2, isrc: [0; 12], flags: 0x40, idx: vec![(0, 0), (S, 1), (2 * S, 2)] },
+            ],
+            top,
+        ),
+    );
     let si_rate0 = (0u8, si_body(16, 16, 0, 0, 0, 1, 8, 1000, [0; 16]));
     let si_max = (0u8, si_body(65535, 65535, 0xFF_FFFF, 0xFF_FFFF, 0xF_FFFF, 8, 32, (1 << 36) - 1, [0xFF; 16]));
     let si_min = (0u8, si_body(0, 0, 0, 0, 1, 1, 1, 0, [0; 16]));
@@ -229,6 +257,8 @@ fn bases() -> Vec<(&'static str, Vec<u8>)> {
         ("si+seek+app+pad", section(&[si_std(), seek.clone(), app(b"test", &[7]), pad(0)])),
         ("si+cue-cdda-extreme", section(&[si_std(), cue_cdda_x])),
         ("si+cue-non-extreme", section(&[si_std(), cue_non_x])),
+        ("si+cue-non-late-overflow", section(&[si_std(), cue_non_late])),
+        ("si+cue-cdda-late-overflow", section(&[si_std(), cue_cdda_late])),
         ("si-max", section(&[si_max])),
         ("si-min+vc-badmask", section(&[si_min, (4u8, vc_body("v", &["WAVEFORMATEXTENSIBLE_CHANNEL_MASK=zz", "waveformatextensible_channel_mask=0xFFFFFFFF"]))])),
         ("si+pad+pad", section(&[si_std(), pad(3), pad(2)])),
